@@ -60,7 +60,11 @@ def stoich_job(interp, c, case):
         rx = (re, pr, ptype, pd)
     # a second, fixed reaction so that column indices matter
     rx2 = ([POOL[2]], [POOL[0]], "massaction", {"k": 2.0})
+    import copy as _copy
+    args_before = _copy.deepcopy((decl, rx2, rx))
     M = T.ns["Model"](species=decl, reactions=[rx2, rx])
+    _rep(c, (decl, rx2, rx) == args_before, "building the model leaves the caller's species list, reaction tuples and parameter dictionaries "
+         "as they were (they may be shared between reactions)", "model construction modifies its arguments", dict(kind="arguments"))
     U, D = M.py_get_update_array(), M.py_get_delay_update_array()
     idx = M.get_species2index()
     rp = dict(kind="stoich", reactants=re, products=pr, dre=dre, dpr=dpr, order=decl, ptype=ptype, nodelay=bool((ldr or ldp) and nodelay))
@@ -172,6 +176,23 @@ def missing_param_job(interp, c, case):
         kw["reactions"] = [(["X"], [], "massaction", {"k": 1.0}, "fixed", [], ["Y"], {"delay": "taumiss"})]
     elif which == "rule":
         kw["rules"] = [("assignment", {"equation": "Y = kmiss*X"})]
+    # the parameter without a value need not be the last one the model gets to know
+    elif which == "massaction+declared":
+        kw["reactions"] = [(["X"], ["Y"], "massaction", {"k": "kmiss"})]
+        kw["parameters"] = [("zeta_last", 2.0)]
+    elif which == "first-of-two-reactions":
+        kw["reactions"] = [(["X"], ["Y"], "massaction", {"k": "kmiss"}), (["Y"], [], "massaction", {"k": 0.5})]
+    elif which == "one-of-two-named":
+        kw["reactions"] = [(["X"], ["Y"], "massaction", {"k": "kmiss"}), (["Y"], [], "massaction", {"k": "k2"})]
+        kw["parameters"] = [("k2", 0.5)]
+    elif which == "hill-K":
+        kw["reactions"] = [(["X"], ["Y"], "hillpositive", {"k": "kh", "K": "Kmiss", "n": "nh", "s1": "X"})]
+        kw["parameters"] = [("kh", 1.0), ("nh", 2.0)]
+    elif which == "delay-then-reaction":
+        kw["reactions"] = [(["X"], [], "massaction", {"k": 1.0}, "fixed", [], ["Y"], {"delay": "taumiss"}), (["Y"], [], "massaction", {"k": 0.5})]
+    elif which == "rule+later-rule":
+        kw["rules"] = [("assignment", {"equation": "Y = kmiss*X"}), ("assignment", {"equation": "X = 2*k9"})]
+        kw["parameters"] = [("k9", 1.0)]
     try:
         M = T.ns["Model"](**kw)
         _rep(c, False, "a model whose %s refers to a parameter without a value initialises" % which, "missing parameter accepted",
@@ -226,7 +247,8 @@ def check(tier):
     for safe in (False, True):
         ck.add("model-derivative/%s" % safe, "harness.C03", "model_derivative_job", dict(cases=[(safe,)]))
     ck.add("missing-parameter", "harness.C03", "missing_param_job",
-           dict(cases=[("massaction",), ("hill",), ("general",), ("delay",), ("rule",)]))
+           dict(cases=[("massaction",), ("hill",), ("general",), ("delay",), ("rule",), ("massaction+declared",), ("first-of-two-reactions",),
+                       ("one-of-two-named",), ("hill-K",), ("delay-then-reaction",), ("rule+later-rule",)]))
     ck.bounds = dict(species_pool=3, reactants="0..%d" % (2 if tier == "quick" else 3), products="0..%d" % (2 if tier == "quick" else 3),
                      delayed_reactants="0..1", delayed_products="0..%d" % (1 if tier == "quick" else 2),
                      declaration_orders="all 6", stoichiometric_matrix_entries="[-4,4], S,R <= 3 (safe route S,R <= 2x3)", reaction_shapes=len(cs))
